@@ -328,10 +328,10 @@ class Daemon(object):
         """
         serializer_id = serializers.MarshalSerializer.serializer_id
         msg_seq = 0
+        current_context.response_annotations = {}   # nothing left over from an earlier call on this thread
         try:
             msg = protocol.recv_stub(conn, [protocol.MSG_CONNECT])
             msg_seq = msg.seq
-            current_context.response_annotations = {}   # nothing left over from an earlier call on this thread
             if denied_reason:
                 raise Exception(denied_reason)
             if config.LOGWIRE:
